@@ -77,6 +77,10 @@ CS = xload.load_real('fedjax/core/client_samplers.py', 'cs_sym', {'numpy': _NP, 
                      attr_overrides={('fedjax.core', 'client_datasets'): S['cd'], ('fedjax.core', 'federated_data'): S['fd']})
 
 
+CS.set = adapters.OrderFreeSet          # any hash set the sampler builds iterates in a per-process order (see adapters.OrderFreeSet)
+CS.frozenset = adapters.OrderFreeSet
+
+
 def make_fd(stack, A, n, idmap=lambda i: i):
   return stack['im'].InMemoryFederatedData({idmap(i): {'x': A.arr([i, i + 1], 'int32')} for i in IDS[:n]})
 
@@ -101,11 +105,13 @@ def check_round(res, fd_ids, cohort, r, key_of, expect_ids):
   return None
 
 
-def scenario_get(cs, stack, A, n, cohort, seed, order, perm_ids, key_of, expected_ids_fn, reset, idmap=lambda i: i):
-  """UniformGetClientSampler: the result at round r does not depend on which rounds were sampled before."""
+def scenario_get(cs, stack, A, n, cohort, seed, order, perm_ids, key_of, expected_ids_fn, reset, idmap=lambda i: i, seat_twice=False):
+  """UniformGetClientSampler: the result at round r does not depend on which rounds were sampled before (nor on how often
+  the sampler was seated at r before sampling), and every id comes with ITS OWN dataset."""
   reset(perm_ids)
   fd = make_fd(stack, A, n, idmap)
   fd_ids = list(fd.client_ids())
+  own_rows = {idmap(i): [i, i + 1] for i in IDS[:n]}
   sampler = cs.UniformGetClientSampler(fd, cohort, seed)
   seen = {}
   keys_by_round = {}
@@ -113,22 +119,31 @@ def scenario_get(cs, stack, A, n, cohort, seed, order, perm_ids, key_of, expecte
   for r in order:
     if prev is None or r != prev + 1:
       sampler.set_round_num(r)            # jump (forward, backward or repeat); consecutive rounds just continue
+      if seat_twice:
+        sampler.set_round_num(r)          # e.g. user code seats a restored sampler and run_federated_experiment seats it again
     res = sampler.sample()
     bad = check_round(res, fd_ids, cohort, r, key_of, expected_ids_fn(fd_ids, seed, r, n, cohort))
     if bad:
       return bad
     summary = [(c[0], A.rows(c[1].all_examples()['x']), key_of(c[2])) for c in res]
+    for cid, rows, _ in summary:
+      if rows != own_rows[cid]:
+        return 'round %d: client %r is returned with the dataset %r of another client' % (r, cid, rows)
     if r in seen and seen[r] != summary:
       return 'round %d sampled twice with different results (history %r)' % (r, order)
     seen[r] = summary
     keys_by_round[r] = [s[2] for s in summary]
     prev = r
   # a restarted sampler seated at round r reproduces the original run
-  for r in seen:
-    fresh = cs.UniformGetClientSampler(make_fd(stack, A, n, idmap), cohort, seed, start_round_num=r)
-    res = fresh.sample()
-    if [(c[0], A.rows(c[1].all_examples()['x']), key_of(c[2])) for c in res] != seen[r]:
-      return 'a sampler restarted at round %d differs from the original run' % r
+  adapters.SET_ORDER[0] = 1       # the restart may be another process: hash sets iterate in another order there
+  try:
+    for r in seen:
+      fresh = cs.UniformGetClientSampler(make_fd(stack, A, n, idmap), cohort, seed, start_round_num=r)
+      res = fresh.sample()
+      if [(c[0], A.rows(c[1].all_examples()['x']), key_of(c[2])) for c in res] != seen[r]:
+        return 'a sampler restarted at round %d differs from the original run' % r
+  finally:
+    adapters.SET_ORDER[0] = 0
   rs = sorted(keys_by_round)
   for a, b in zip(rs, rs[1:]):
     if set(keys_by_round[a]) & set(keys_by_round[b]):
@@ -165,15 +180,17 @@ import os
 _NCFG = [int(x) for x in os.environ.get('C13_CFG', '3,2,0').split(',')]   # clients, cohort, seed
 
 
-def get_sampler(i1: int, i2: int, p1: int, p2: int) -> bool:
+def get_sampler(i1: int, i2: int, p1: int, p2: int, seat_twice: bool) -> bool:
   """
-  Two requested rounds in any order (repeat, forward jump, backward jump), the draws of both rounds symbolic.
+  Two requested rounds in any order (repeat, forward jump, backward jump), the draws of both rounds symbolic; jumps seat the
+  sampler once or twice.
   pre: 0 <= i1 <= 3 and 0 <= i2 <= 3
   pre: 0 <= p1 < 24 and 0 <= p2 < 24
   post: __return__
   """
   n, cohort, seed = _NCFG
-  return scenario_get(CS, S, M, n, cohort, seed, [ROUNDS[i1], ROUNDS[i2]], [p1 % FACT[n], p2 % FACT[n]], lambda k: k, _model_expected, SeededDraws.reset) is None
+  return scenario_get(CS, S, M, n, cohort, seed, [ROUNDS[i1], ROUNDS[i2]], [p1 % FACT[n], p2 % FACT[n]], lambda k: k, _model_expected, SeededDraws.reset,
+                      seat_twice=seat_twice) is None
 
 
 def get_sampler3(i1: int, i2: int, i3: int) -> bool:
